@@ -196,8 +196,9 @@ def field_cases(tier):
     fams = ("loglin", "power")
     halos = (13.0, None) if tier == "quick" else (13.0, None, 30.0, 60.0)
     ns = (16, 64, 256) if tier == "quick" else (16, 64, 256, 1024)
+    # "many": more than 16 output levels in one request
     # "duplicated": the same node requested twice (two instruments mapped to one grid node) - both slices are that node's solution
-    for fam, fp, order in itertools.product(fams, (False, True), ("ascending", "descending", "rotated", "duplicated")):
+    for fam, fp, order in itertools.product(fams, (False, True), ("ascending", "descending", "rotated", "duplicated", "many")):
         # all halos in ONE case (one process): consecutive solves that differ only in the halo
         yield {"family": fam, "halos": list(halos), "footprint": fp, "order": order, "ns": ns}
     # the same ladder with the numerical thread count raised the way the CLI raises it (bldfm.config.NUM_THREADS)
@@ -260,7 +261,8 @@ def _field_error(case, halo, n):
         modes = (4, 4)
     z = np.linspace(z0, zt, n + 1)
     prof = tuple(np.asarray(f(z), dtype=float) + 0.0 * z for f in funcs)
-    lv = {"ascending": [n // 2, n], "descending": [n, n // 2], "rotated": [n // 2, n, n // 4], "duplicated": [n // 2, n, n // 2, n]}[case["order"]]
+    lv = {"ascending": [n // 2, n], "descending": [n, n // 2], "rotated": [n // 2, n, n // 4], "duplicated": [n // 2, n, n // 2, n],
+          "many": [(k * n) // 19 for k in range(20)]}[case["order"]]  # 20 output levels in one request (coarse columns repeat nodes)
     saved_threads = rt.NUM_THREADS
     try:
         rt.NUM_THREADS = case.get("threads", 1)
